@@ -14,6 +14,7 @@ from __future__ import annotations
 import io
 import json
 import logging
+import os
 import struct
 import warnings
 import zlib
@@ -22,7 +23,9 @@ from . import core
 from .core import Check, h63_list
 
 IMPORTS = ["Base.Prelude", "Attrs.Model", "Attrs.Corr"]
-FIX = "/repo/tests/psd_files/"
+FIX = os.path.join(core.REPO, "tests", "psd_files") + "/"
+if not os.path.isdir(FIX):      # a scratch tree with sources only: the fixtures are those of /repo
+    FIX = "/repo/tests/psd_files/"
 ATTRS = ["name", "visible", "opacity", "blend_mode", "left", "top", "clipping_layer", "lock"]
 ACOQ = dict(name="AName", visible="AVisible", opacity="AOpacity", blend_mode="ABlend", left="ALeft", top="ATop",
             clipping_layer="AClip", lock="ALock")
@@ -565,6 +568,50 @@ def run_case(ck, subject, ops, oracle=True):
     return st0, ops2, out, (len(ck.failures) - nfail0 if ck is not None else 0)
 
 
+def _final_differs(out):
+    """does the observation after the last successful step differ from the initial one? (out = obs0 ++ steps)"""
+    # an observation starts with the name (length-prefixed) and is self-delimiting only through its producer, so
+    # compare by re-splitting: every successful step contributes `0 :: obs`, a failing one a single code >= 1
+    n0 = _obs_len(out, 0)
+    first, i, last = out[:n0], n0, None
+    while i < len(out):
+        if out[i] == 0:
+            n = _obs_len(out, i + 1)
+            last = out[i + 1:i + 1 + n]
+            i += 1 + n
+        else:
+            i += 1
+    return last is not None and last != first
+
+
+def _obs_len(out, i):
+    """length of the observation starting at out[i] (mirrors obs_api ++ obs_raw)"""
+    j = i
+    j += 1 + out[j]                 # name
+    j += 2                          # visible, opacity
+    j += 2 if out[j] else 1         # blend
+    j += 7                          # left top right bottom width height clip
+    j += 2 if out[j] else 1         # lock
+    j += 1                          # kind
+    j += 1 + out[j]                 # record name
+    if out[j]:                      # luni
+        j += 1
+        j += 1 + out[j]
+    else:
+        j += 1
+    j += 10                         # tp vis fbits opacity rblend clip left top right bottom
+    if out[j]:                      # lsct
+        j += 3
+        j += 2 if out[j] else 1
+        j += 2 if out[j] else 1
+    else:
+        j += 1
+    j += 2 if out[j] else 1         # lspf
+    j += 2 if out[j] else 1         # iopa
+    j += 2                          # attached, pixels
+    return j - i
+
+
 # ------------------------------------------------------------------ known findings
 def _pre(fl):
     return fl.get("pre") or {}
@@ -749,7 +796,7 @@ def histories(ck):
             else:
                 yield s, [e, ("reopen",)]
         yield s, ([("attach",)] if created else []) + [("reopen",), ("reopen",)]
-    n = 12000 if thorough else 1400
+    n = 45000 if thorough else 1400
     sizes = {tuple(map(str, s)): subject_size(s)[0] for s in subs}
     for _ in range(n):
         s = ck.rng.choice(subs)
@@ -764,7 +811,7 @@ def histories(ck):
             ops.insert(ck.rng.randint(0, first_reopen), ("attach",))
         yield s, ops
     if thorough:   # longer histories: the theorems are about every length
-        for _ in range(1500):
+        for _ in range(5000):
             s = ck.rng.choice(subs)
             w, h = sizes[tuple(map(str, s))]
             ops = [random_edit(ck.rng, w, h) for _ in range(ck.rng.randint(4, 12))]
@@ -845,7 +892,7 @@ def run():
         for o in ops2:
             ck.count("op:" + (o[0] if o[0] != "set" else "set:" + o[1]))
         ck.count("len:%d" % len(ops2))
-        if len(out) > 0:
+        if _final_differs(out):
             ck.nontriv((str(subject), str(ops2)))
     if meta:
         s, o, _ = meta[len(meta) // 2]
